@@ -79,6 +79,9 @@ pub fn parse_resp(buf: &[u8]) -> Result<(RespIndex, usize), ParseError> {
 fn parse_array(buf: &[u8]) -> Result<(ArrayIndex, usize), ParseError> {
     let (len, mut consumed) = parse_len(buf)?;
     if len < 0 {
+        if len != -1 {
+            return Err(ParseError::InvalidProtocol);
+        }
         return Ok((ArrayIndex::Nil, consumed));
     }
 
@@ -99,12 +102,18 @@ fn parse_array(buf: &[u8]) -> Result<(ArrayIndex, usize), ParseError> {
 fn parse_bulk_str(buf: &[u8]) -> Result<(BulkStrIndex, usize), ParseError> {
     let (len, consumed) = parse_len(buf)?;
     if len < 0 {
+        if len != -1 {
+            return Err(ParseError::InvalidProtocol);
+        }
         return Ok((BulkStrIndex::Nil, consumed));
     }
 
     let content_size = len as usize;
     if buf.len() < consumed + content_size + 2 {
         return Err(ParseError::NotEnoughData);
+    }
+    if buf.get(consumed + content_size..consumed + content_size + 2) != Some(b"\r\n") {
+        return Err(ParseError::InvalidProtocol);
     }
 
     let s = DataIndex(consumed, consumed + content_size);
@@ -117,13 +126,16 @@ fn parse_len(buf: &[u8]) -> Result<(i64, usize), ParseError> {
         .get(data_index.to_range())
         .ok_or(ParseError::UnexpectedErr)?;
 
+    if next_buf.first() == Some(&b'+') {
+        return Err(ParseError::InvalidProtocol);
+    }
     let len = btoi(next_buf).map_err(|_| ParseError::InvalidProtocol)?;
     Ok((len, consumed))
 }
 
 fn parse_line(buf: &[u8]) -> Result<(DataIndex, usize), ParseError> {
     let lf_index = memchr(LF, buf).ok_or(ParseError::NotEnoughData)?;
-    if lf_index == 0 {
+    if lf_index == 0 || buf.get(lf_index - 1) != Some(&b'\r') {
         return Err(ParseError::InvalidProtocol);
     }
 
